@@ -80,6 +80,7 @@ extern int mpt_vprintf(MPT_STRUCT(array) *arr, const char *format, va_list args)
 		len += 64;
 	}
 	if (!(base = mpt_array_slice(arr, used, len))) {
+		buf->_used = used;
 		return MPT_ERROR(BadOperation);
 	}
 	buf = arr->_buf;
